@@ -524,4 +524,109 @@ theorem tie_SendSomeWritable (W : Net.World ω) (E : Engine σ) (buf : Bytes) (f
          ⟨(sendSomeWritable CfgN W E w.s buf).2, a, r⟩) :=
   sendSomeWritable_rel W E buf fuel (tie_Write W E buf fuel hb hE hf) w
 
+/-! ### `Shutdown()` (DESIGN.md §0.22)
+
+The generated drain loop counts `i = 0 .. handshakeStepsMax - 1` up, the model's `drainLoop` counts the rounds left down; the
+second `SSL_shutdown` is the continuation of every exit of the loop.  Needed from libssl: `ReadContract` for the 1024-byte
+drain buffer (a successful `SSL_read` delivers at least one byte). -/
+
+/-- the model's outcome of a step that yields no value -/
+def resU (o : Out Unit) : Gen.Res Unit := resOfOut id o
+
+/-- the second `SSL_shutdown` (its result is ignored) -/
+theorem shut_finish_tie (W : Net.World ω) (E : Engine σ) (buf : Bytes) (w : TWSt σ ω) :
+    Gen.M.bind (tlsWorld W E buf).sslShutdown (fun _ => Gen.M.pure ()) w
+      = (resU (shutFinish W E w.s).1, ⟨(shutFinish W E w.s).2, w.ans, w.rx⟩) := by
+  simp only [Gen.M.bind, tw_sslShutdown, shutFinish, shutCall]
+  rcases interp W w.s (E.sslShutdown w.s.e) with ⟨o, s1⟩
+  rcases o with ⟨ans, out⟩ | x | m <;> simp [resU, resOfOut, Gen.M.pure]
+
+/-- the drain loop of `Shutdown`: `i` rounds left in the model = loop variable `10 - i` in the C++ -/
+theorem drain_loop_tie (W : Net.World ω) (E : Engine σ) (buf : Bytes) (fuel : Nat) (hE : ReadContract E shutdownBuf) :
+    ∀ (i n : Nat) (iv : Int) (w : TWSt σ ω), iv = 10 - (i : Int) → i ≤ 10 → i < n →
+      ∃ a r, Gen.Tls_Shutdown_loop1 (tlsWorld W E buf) fuel n iv w
+        = (resU (drainLoop W E i w.s).1, ⟨(drainLoop W E i w.s).2, a, r⟩) := by
+  have hbm : Int.bmod (1024 : Int) 4294967296 = ((1024 : Nat) : Int) := by decide
+  intro i
+  induction i with
+  | zero =>
+    intro n iv w hiv _ hn
+    obtain ⟨n', rfl⟩ : ∃ n', n = n' + 1 := ⟨n - 1, by omega⟩
+    refine ⟨w.ans, w.rx, ?_⟩
+    subst hiv
+    have h10 : ¬ ((10 : Int) - ((0 : Nat) : Int) < 10) := by omega
+    simp only [Gen.Tls_Shutdown_loop1, drainLoop, h10, if_false]
+    exact shut_finish_tie W E buf w
+  | succ i ih =>
+    intro n iv w hiv hi hn
+    obtain ⟨n', rfl⟩ : ∃ n', n = n' + 1 := ⟨n - 1, by omega⟩
+    have hlt : iv < 10 := by omega
+    have hspec := (interp_spec (W := W) _ _ (hE w.s.e) w.s).2.2.1
+    simp only [Gen.Tls_Shutdown_loop1, drainLoop, Gen.M.bind, hbm, tw_sslRead, Int.toNat_natCast, hlt, if_true]
+    simp only [shutdownBuf] at hspec ⊢
+    rcases hI : interp W w.s (E.sslRead w.s.e 1024) with ⟨o, s1⟩
+    rw [hI] at hspec
+    rcases o with ⟨ans, out⟩ | x | m
+    · have hc := hspec ans out rfl
+      cases hA : ans with
+      | done k =>
+        obtain ⟨hne, hlen⟩ := hc k hA
+        have hpos : 0 < out.length := List.length_pos_iff.mpr hne
+        have h1 : ¬ ((out.length : Int) < 0) := by omega
+        have h2 : ¬ ((out.length : Int) = 0) := by omega
+        obtain ⟨a, r, h⟩ := ih n' (iv + 1) ⟨noteCall E s1 true [] (.done k), .done k, out⟩ (by omega) (by omega) (by omega)
+        refine ⟨a, r, ?_⟩
+        simp only [readRes, h1, h2, if_false]
+        exact h
+      | zeroReturn =>
+        refine ⟨.zeroReturn, out, ?_⟩
+        simp only [readRes, Int.lt_irrefl, if_false, if_true]
+        exact shut_finish_tie W E buf ⟨noteCall E s1 true [] .zeroReturn, .zeroReturn, out⟩
+      | _ =>
+        all_goals
+          simp only [readRes, tie_HandleResult, Gen.M.bind]
+          rcases hH : handleResult W (noteCall E s1 true [] _) _ with ⟨ho, s2⟩
+          rcases ho with b | x | m
+          · cases b
+            · refine ⟨ans, out, ?_⟩
+              simp [↓ shut_finish_tie, hA, hH, resOfOut, Gen.M.bind, tie_HandleResult]
+            · obtain ⟨a, r, h⟩ := ih n' (iv + 1) ⟨s2, ans, out⟩ (by omega) (by omega) (by omega)
+              simp only [hA] at h
+              exact ⟨a, r, by simp [hA, hH, resOfOut, Gen.M.pure, Gen.M.bind, tie_HandleResult, h]⟩
+          · exact ⟨ans, out, by simp [hA, hH, resU, resOfOut, Gen.M.bind, tie_HandleResult]⟩
+          · exact ⟨ans, out, by simp [hA, hH, resU, resOfOut, Gen.M.bind, tie_HandleResult]⟩
+    · exact ⟨w.ans, w.rx, by simp [resU, resOfOut]⟩
+    · exact ⟨w.ans, w.rx, by simp [resU, resOfOut]⟩
+
+/-- `Shutdown()`: readiness flags cleared, one second of budget, `SSL_shutdown`, and unless both alerts are exchanged
+already the drain loop followed by the second `SSL_shutdown` -/
+theorem tie_Shutdown (W : Net.World ω) (E : Engine σ) (buf : Bytes) (fuel : Nat) (hE : ReadContract E shutdownBuf)
+    (hf : 10 < fuel) (w : TWSt σ ω) :
+    ∃ a r, Gen.Tls_Shutdown (tlsWorld W E buf) fuel w
+      = (resU (tlsShutdown CfgN W E w.s).1, ⟨(tlsShutdown CfgN W E w.s).2, a, r⟩) := by
+  simp only [Gen.Tls_Shutdown, tlsShutdown, shutCall, Gen.M.bind, tw_set_isReadable, tw_set_isWritable,
+    tw_set_remainingTime, tw_sslShutdown, stepsMaxN]
+  have hp : setTimeout { w.s with g := { ({ w.s with g := { w.s.g with isReadable := false } } : St σ ω).g with isWritable := false } }
+      ((1 : Int) * 1000) = shutdownPrep w.s := by
+    simp [shutdownPrep, setTimeout]
+  simp only [hp]
+  rcases hI : interp W (shutdownPrep w.s) (E.sslShutdown (shutdownPrep w.s).e) with ⟨o, s1⟩
+  have he : (shutdownPrep w.s).e = w.s.e := rfl
+  rcases o with ⟨ans, out⟩ | x | m
+  · cases hA : ans with
+    | done k =>
+      cases k with
+      | zero =>
+        obtain ⟨a, r, h⟩ := drain_loop_tie W E buf fuel hE 10 (Gen.loopFuel fuel) 0 ⟨s1, w.ans, w.rx⟩ (by omega) (by omega)
+          (by simp only [Gen.loopFuel]; omega)
+        exact ⟨a, r, by simp [hI, he, shutRes, SslAns.shutDone, h]⟩
+      | succ k => exact ⟨w.ans, w.rx, by simp [hI, he, shutRes, SslAns.shutDone, resU, resOfOut, Gen.M.pure]⟩
+    | _ =>
+      all_goals
+        obtain ⟨a, r, h⟩ := drain_loop_tie W E buf fuel hE 10 (Gen.loopFuel fuel) 0 ⟨s1, w.ans, w.rx⟩ (by omega) (by omega)
+          (by simp only [Gen.loopFuel]; omega)
+        exact ⟨a, r, by simp [hI, he, shutRes, SslAns.shutDone, h]⟩
+  · exact ⟨w.ans, w.rx, by simp [hI, he, resU, resOfOut]⟩
+  · exact ⟨w.ans, w.rx, by simp [hI, he, resU, resOfOut]⟩
+
 end SockModel.Props.C18Tie
